@@ -229,7 +229,7 @@ def observe_M():
     for j in range(400):
         e = (x - j) ** 2 + 1
         degs.append((AN.compute_degree(e), bool(AN.is_linear(e))))
-    out["fresh_degrees"] = sorted(set(degs))
+    out["fresh_degrees"] = sorted(set(degs), key=repr)
     return out
 
 
